@@ -253,6 +253,57 @@ Definition sdpa_via_mha_check (key_bhsd : bool) (q k v : option (list Z)) : opti
   | None => None
   end.
 
+(* ---- sdpa.py SDPA.check, the shape part (the scale part is Sdpa.v).  names: B=0 H=1 S=2 Dh=3 Skv=4 Dv=5.
+   mask: None = the match has no mask; Some None = mask of unknown shape; Some (Some ms).
+   [repaired] = false: as read at bbeff32 (shapes bound, nothing else); true: fix (ready/C19_04) -- a mask of rank > 4 or with a
+   static dim that is neither 1 nor the (static) score dim it is aligned with is refused, and H must be static. *)
+Fixpoint mask_into_score_rev (mask_rev score_rev : list Z) : bool :=
+  match mask_rev, score_rev with
+  | m :: mt, c :: ct => negb (is_static m && is_static c && negb (m =? 1)%Z && negb (m =? c)%Z) && mask_into_score_rev mt ct
+  | _, _ => true
+  end.
+Definition mask_into_score (mask score : list Z) : bool :=
+  (length mask <=? 4)%nat && mask_into_score_rev (rev mask) (rev score).
+Definition sdpa_check (repaired key_bhsd : bool) (q k v : option (list Z)) (mask : option (option (list Z))) : bool :=
+  let b1 := check_shape (Some []) q [0; 1; 2; 3]%nat in
+  let b2 := check_shape b1 k (if key_bhsd then [0; 1; 4; 3] else [0; 4; 1; 3])%nat in
+  let b3 := check_shape b2 v [0; 1; 4; 5]%nat in
+  match b3 with
+  | None => false
+  | Some bd =>
+      negb repaired ||
+      match lookup bd 0%nat, lookup bd 1%nat, lookup bd 2%nat, lookup bd 4%nat with
+      | Some b, Some h, Some s, Some skv =>
+          match mask with Some (Some ms) => mask_into_score ms [b; h; s; skv] | _ => true end && is_static h
+      | _, _, _, _ => false
+      end
+  end.
+(* left-pad a mask shape with 1s to rank 4 (NumPy alignment) *)
+Definition pad4 (ms : list Z) : list Z := repeat 1%Z (4 - length ms) ++ ms.
+
+(* ---- the final Reshape of the MHA pattern (known finding C19:mha:output-reshape-not-checked, NOT repaired).
+   ONNX Reshape of an input of shape [ins] with target [tgt] gives [out] when: same length as tgt; entry 0 copies the input dim
+   at that index; a positive entry is itself; at most one entry is -1 (its output dim is then whatever makes the element
+   counts agree); element counts agree. *)
+Fixpoint reshape_entries (ins tgt out : list Z) : Prop :=
+  match tgt, out with
+  | [], [] => True
+  | t :: tq, o :: ot =>
+      ((t = 0 /\ hd_error ins = Some o) \/ (0 < t /\ o = t) \/ (t = -1 /\ 0 < o))%Z /\ reshape_entries (tl ins) tq ot
+  | _, _ => False
+  end.
+Fixpoint count_minus1 (tgt : list Z) : nat :=
+  match tgt with [] => 0%nat | t :: r => ((if (t =? -1)%Z then 1 else 0) + count_minus1 r)%nat end.
+Definition reshape_result (ins tgt out : list Z) : Prop :=
+  reshape_entries ins tgt out /\ (count_minus1 tgt <= 1)%nat /\ zprod out = zprod ins.
+(* executable decider used by the harness: the target denotes the operator's output shape [B, S, H*Dv] *)
+Definition entry_is (t in_i v : Z) : bool := (t =? -1)%Z || ((0 <? t)%Z && (t =? v)%Z) || ((t =? 0)%Z && (in_i =? v)%Z).
+Definition tgt_is_BSD (B S H Dv : Z) (tgt : list Z) : bool :=
+  match tgt with
+  | [t0; t1; t2] => (count_minus1 tgt <=? 1)%nat && entry_is t0 B B && entry_is t1 S S && entry_is t2 H (H * Dv)
+  | _ => false
+  end.
+
 (* GroupQueryAttention.check.  names: B=0 S=1 D=2 Dkv=3 Hkv=4 P=5 Dh=6 Dv=7.
    mask_has_producer: the SDPA mask is computed by a node (as opposed to a graph input / initializer).
    mask_is_causal_pattern: the mask sub-graph is the causal pattern of _causal_mask.
@@ -338,13 +389,17 @@ Inductive attn_case :=
   | CMha (strict_mask : bool) (i : mha_in) (observed : option (Z * bool))
   | CSdpaMha (key_bhsd : bool) (q k v : option (list Z)) (observed : option Z)
   | CGqa (head16 : bool) (i : gqa_in) (observed : option (Z * Z * Z))
-  | CAtt (i : att_in) (observed : option (Z * Z * Z)).
+  | CAtt (i : att_in) (observed : option (Z * Z * Z))
+  | CSdpaCheck (repaired key_bhsd : bool) (q k v : option (list Z)) (mask : option (option (list Z))) (observed : bool)
+  | COutReshape (B S H Dv : Z) (tgt : list Z) (observed_same : bool).
 Definition attn_agrees (c : attn_case) : bool :=
   match c with
   | CMha st i obs => ozb_eqb (mha_check_rewrite st i) obs
   | CSdpaMha kb q k v obs => oz_eq (sdpa_via_mha_check kb q k v) obs
   | CGqa h16 i obs => oz3_eqb (gqa_check_rewrite false h16 i) obs
   | CAtt i obs => oz3_eqb (att_check_rewrite i) obs
+  | CSdpaCheck r kb q k v m obs => Bool.eqb (sdpa_check r kb q k v m) obs
+  | COutReshape b s h dv tgt obs => Bool.eqb (tgt_is_BSD b s h dv tgt) obs
   end.
 Fixpoint attn_disagreeing (i : nat) (cs : list attn_case) : list nat :=
   match cs with [] => [] | c :: t => (if attn_agrees c then [] else [i]) ++ attn_disagreeing (S i) t end.
